@@ -424,41 +424,55 @@ def pool_rules(ck, facts, runtime_facts):
 
     # ---- allocate_memory (one obligation pair per instantiation)
     may_return_null = False
+    fields = memory_info_fields()
     for fn in one("allocate_memory"):
         rets = [n for n in fn.nodes() if n.get("k") == "Return" and n.get("e") is not None]
-        ins = [n for n in fn.nodes() if n.get("k") == "MCall" and n.get("n") == "insert" and render(n.get("obj")).endswith("_pool")]
-        one_init = [(d, x) for d, x in [(counter_delta_init(x), x) for x in fn.nodes()] if d is not None]
+        regs = pool_registrations(fn)
         tkey = "MemoryPool::allocate_memory"
-        if fn.cfg is None or len(ins) != 1:
-            ck.incomplete("C20.pool-allocate", "%s: expected one _pool.insert and a CFG" % fn.full)
+        if fn.cfg is None or not regs:
+            ck.incomplete("C20.pool-allocate", "%s: no statement that enters a (pointer, MemoryInfo) pair into _pool recognised "
+                          "(insert / emplace / try_emplace / insert_or_assign / _pool[p] = info), or no CFG" % fn.full)
             continue
-        insn = ins[0]
-        if not one_init:
-            ck.incomplete("C20.pool-allocate", "%s: no `info.counter = <n>` assignment found (aggregate / constructor initialisation of MemoryInfo is not modelled)" % fn.full)
+        if fields is None:
+            ck.incomplete("C20.pool-allocate", "struct MemoryInfo { counter; size; } not found in kernel/util/memory_pool.hpp")
             continue
-        # the inserted pair: (returned pointer, info with counter 1)
-        pa = [L.unwrap(x) for x in (L.unwrap(insn["a"][0]).get("a") or [])]
         retvars = {L.unwrap(r["e"]).get("d") for r in rets}
-        ok_ptr = len(pa) == 2 and pa[0].get("d") in retvars and len(retvars) == 1
-        ok_one = len(one_init) == 1 and one_init[0][0] == 1 and len(pa) == 2 and L.unwrap(one_init[0][1]["lhs"]["b"]).get("d") == pa[1].get("d") \
-            and fn.cfg.stmt_dominates(one_init[0][1]["i"], insn["i"])
-        ck.ob("C20.pool-allocate", tkey + "/counter-starts-at-1", ok_ptr and ok_one,
-              "the pool entry inserted for the returned pointer carries counter %s (expected 1, assigned before the insert)" % ([d for d, _ in one_init]),
-              fn.file, insn.get("l"))
-        # every return either is dominated by the insert or returns the never-assigned null initial value
         rv = next(iter(retvars)) if len(retvars) == 1 else None
+        problems, bad_cnt, shown = [], [], []
+        for node, key_e, info_e in regs:
+            k0 = L.unwrap(key_e)
+            if rv is None or k0.get("d") != rv:
+                bad_cnt.append("the key %s registered at line %s is not the returned pointer" % (render(k0)[:40], node.get("l")))
+                continue
+            vals, why = registered_counter(fn, info_e, node, fields)
+            if vals is None:
+                problems.append(why)
+                continue
+            shown.extend(vals)
+            if any(v != 1 for v in vals):
+                bad_cnt.append("the entry registered at line %s carries counter %s" % (node.get("l"), vals))
+        if problems and not bad_cnt:
+            ck.incomplete("C20.pool-allocate", "%s: %s" % (fn.full, problems[0]))
+            continue
+        ck.ob("C20.pool-allocate", tkey + "/counter-starts-at-1", not bad_cnt,
+              "the pool entry registered for the returned pointer carries counter %s (expected 1, set before the registration)%s" % (
+                  sorted(set(map(str, shown))), "" if not bad_cnt else ": " + "; ".join(bad_cnt)),
+              fn.file, regs[0][0].get("l"))
+        # every return either is preceded on all paths by a registration or returns the never-assigned null initial value
         assigns = [n for n in fn.nodes() if n.get("k") == "Assign" and L.unwrap(n["lhs"]).get("d") == rv]
         init = fn_local_init(fn, rv)
+        reg_ids = {id(r[0]) for r in regs}
         bad = []
         for r in rets:
-            if fn.cfg.stmt_dominates(insn["i"], r["i"]):
+            wr = fn.cfg.block_of(r["i"])
+            if wr is not None and fn.cfg.must_pass(lambda s_: id(s_) in reg_ids, target_blocks=[wr[0]])[0]:
                 continue
             if init is not None and L.unwrap(init).get("k") == "Null" and not any(fn.cfg.stmt_dominates(a["i"], r["i"]) or reaches(fn, a, r) for a in assigns):
                 may_return_null = True
                 continue
             bad.append(r.get("l"))
         ck.ob("C20.pool-allocate", tkey + "/registered-before-return", not bad,
-              "returns at lines %s hand out a pointer that was not registered in the pool" % bad if bad else "every non-null return is dominated by the _pool.insert", fn.file, fn.line)
+              "returns at lines %s hand out a pointer that was not registered in the pool" % bad if bad else "every non-null return is preceded on all paths by the registration in _pool", fn.file, fn.line)
 
     # ---- nullptr agreement
     rel_fn = (one("release_memory") or [None])[0]
@@ -523,6 +537,160 @@ def pool_rules(ck, facts, runtime_facts):
                   "a normal exit of Runtime::finalize is reachable without MemoryPool::finalize (blocks %s)" % bad, fn.file, fn.line)
 
 
+def is_pool(e):
+    e = L.unwrap(e) if e is not None else None
+    return e is not None and (str(e.get("qn", "")).endswith("MemoryPool::_pool") or render(e).endswith("_pool"))
+
+
+def memory_info_fields():
+    """field names of struct MemoryInfo in declaration order (for aggregate initialisation `MemoryInfo{1, bytes}`)"""
+    try:
+        txt = open(featlib.repo_path("kernel/util/memory_pool.hpp")).read()
+    except OSError:
+        return None
+    m = re.search(r"struct\s+MemoryInfo\s*\{(.*?)\}", txt, re.S)
+    if not m:
+        return None
+    body = re.sub(r"//[^\n]*|/\*.*?\*/", "", m.group(1), flags=re.S)
+    out = []
+    for decl in body.split(";"):
+        decl = decl.strip()
+        if not decl or "(" in decl:
+            continue
+        mm = re.match(r"^[\w:<>\s\*&]+?\b(\w+)\s*(?:=[^;]*|\{[^;]*\})?$", decl)
+        if not mm:
+            return None
+        out.append(mm.group(1))
+    return out if "counter" in out else None
+
+
+def _pair_parts(fn, x, depth=0):
+    """(key, info) if x builds a std::pair / value_type of the pool map"""
+    x = L.unwrap(x)
+    k = x.get("k")
+    if k in ("Construct", "TempObj") and len(x.get("a", [])) == 2 and "pair" in str(x.get("ccls", "")):
+        return x["a"][0], x["a"][1]
+    if k in ("Construct", "TempObj") and len(x.get("a", [])) == 1 and "pair" in str(x.get("ccls", "")) and depth < 3:
+        return _pair_parts(fn, x["a"][0], depth + 1)          # copy / converting construction of a pair
+    if k == "Call" and str(x.get("callee", "")) in ("std::make_pair", "std::pair") and len(x.get("a", [])) == 2:
+        return x["a"][0], x["a"][1]
+    if k == "InitList" and len(x.get("a", [])) == 2:
+        return x["a"][0], x["a"][1]
+    if k == "Ref" and x.get("dk") == "local" and depth < 3:
+        init = fn_local_init(fn, x.get("d"))
+        if init is not None and not any(a.get("k") == "Assign" and L.unwrap(a["lhs"]).get("d") == x["d"] for a in fn.nodes()):
+            return _pair_parts(fn, init, depth + 1)
+    return None
+
+
+def pool_registrations(fn):
+    """[(statement, key expr, info expr)]: every statement that enters a (pointer, MemoryInfo) pair into MemoryPool::_pool -
+    insert(pair) / insert(hint, pair) / emplace(k, v) / try_emplace(k, v) / insert_or_assign(k, v) / emplace_hint(h, k, v) /
+    _pool[k] = v.  (std::map::insert/emplace/try_emplace leave an existing entry alone; for a pointer fresh from malloc there is none.)"""
+    out = []
+    for n in fn.nodes():
+        k = n.get("k")
+        if k == "MCall" and is_pool(n.get("obj")):
+            m, a = n.get("n"), n.get("a") or []
+            if m == "insert" and len(a) in (1, 2):
+                pp = _pair_parts(fn, a[-1])
+                if pp:
+                    out.append((n, pp[0], pp[1]))
+            elif m in ("emplace", "try_emplace", "insert_or_assign") and len(a) == 2:
+                out.append((n, a[0], a[1]))
+            elif m in ("emplace_hint",) and len(a) == 3:
+                out.append((n, a[1], a[2]))
+            elif m in ("emplace", "emplace_hint") and len(a) in (1, 2):
+                pp = _pair_parts(fn, a[-1])
+                if pp:
+                    out.append((n, pp[0], pp[1]))
+        elif (k == "OpCall" and n.get("op") == "=" and len(n.get("a") or []) == 2) or (k == "Assign" and n.get("op") == "="):
+            lhs, rhs = (n["a"][0], n["a"][1]) if k == "OpCall" else (n["lhs"], n["rhs"])
+            l0 = L.unwrap(lhs)
+            if l0.get("k") == "OpCall" and l0.get("op") == "[]" and len(l0.get("a") or []) == 2 and is_pool(l0["a"][0]):
+                out.append((n, l0["a"][1], rhs))
+            elif l0.get("k") == "MCall" and l0.get("n") in ("operator[]", "at") and is_pool(l0.get("obj")) and l0.get("a"):
+                out.append((n, l0["a"][0], rhs))
+    return out
+
+
+def _agg_counter(e, fields):
+    """counter value of an aggregate initialiser `MemoryInfo{c, s}` / `{c, s}`; None if e is not one"""
+    e = L.unwrap(e)
+    while e.get("k") in ("Construct", "TempObj") and len(e.get("a", [])) == 1 and "MemoryInfo" in str(e.get("ccls", "")):
+        e = L.unwrap(e["a"][0])
+    if e.get("k") == "InitList" or (e.get("k") in ("Construct", "TempObj") and "MemoryInfo" in str(e.get("ccls", "")) and len(e.get("a", [])) == len(fields)):
+        a = e.get("a") or []
+        i = fields.index("counter")
+        if e.get("k") == "InitList" and len(a) == 0:
+            return 0          # value-initialised
+        if i < len(a):
+            try:
+                return ieval(a[i], lambda y: None)
+            except (NoEval, TypeError):
+                return "?"
+        return 0
+    return None
+
+
+def registered_counter(fn, info_e, reg, fields):
+    """-> (list of counter values the registered MemoryInfo may carry, None) or (None, why not derivable)"""
+    e = L.unwrap(info_e)
+    v = _agg_counter(e, fields)
+    if v is not None:
+        return [v], None
+    if e.get("k") != "Ref" or e.get("dk") != "local":
+        return None, "the MemoryInfo registered at line %s (%s) is neither a local nor an aggregate initialiser" % (reg.get("l"), render(e)[:60])
+    d = e["d"]
+    writes = []          # (value, node) of everything that sets <local>.counter
+    init = fn_local_init(fn, d)
+    iv = _agg_counter(init, fields) if init is not None else None
+    for x in fn.nodes():
+        if x.get("k") == "Assign" and is_counter(L.unwrap(x["lhs"])) and L.unwrap(L.unwrap(x["lhs"]).get("b") or {}).get("d") == d:
+            dv = counter_delta_init(x) if x.get("op") == "=" else "?"
+            writes.append((dv if dv is not None else "?", x))
+        elif x.get("k") == "Un" and x.get("op") in ("++", "--") and is_counter(L.unwrap(x["e"])) and L.unwrap(L.unwrap(x["e"]).get("b") or {}).get("d") == d:
+            writes.append(("?", x))
+        elif (x.get("k") == "OpCall" and x.get("op") == "=" and len(x.get("a") or []) == 2 and L.unwrap(x["a"][0]).get("d") == d) or \
+                (x.get("k") == "Assign" and x.get("op") == "=" and L.unwrap(x["lhs"]).get("k") == "Ref" and L.unwrap(x["lhs"]).get("d") == d):
+            rhs = x["a"][1] if x.get("k") == "OpCall" else x["rhs"]
+            av = _agg_counter(rhs, fields)
+            writes.append((av if av is not None else "?", x))
+        elif is_call(x) and x.get("k") in ("Call", "MCall") and any(L.unwrap(a).get("k") == "Ref" and L.unwrap(a).get("d") == d for a in (x.get("a") or [])) and x is not reg \
+                and not any(x is r[0] for r in pool_registrations(fn)):
+            pts = x.get("pt") or []
+            for i, a in enumerate(x.get("a") or []):
+                if L.unwrap(a).get("d") == d:
+                    t = fn.type(pts[i]) if i < len(pts) else ""
+                    if t.rstrip().endswith("&") and not t.startswith("const "):
+                        return None, "the MemoryInfo local is handed to %s by mutable reference (line %s)" % (x.get("callee"), x.get("l"))
+    before = [(v, x) for v, x in writes if fn.cfg.stmt_dominates(x["i"], reg["i"])]
+    maybe = [(v, x) for v, x in writes if not fn.cfg.stmt_dominates(x["i"], reg["i"]) and reaches_node(fn, x, reg)]
+    if not before and iv is None:
+        if not writes:
+            return None, "no `info.counter = <n>` assignment or aggregate initialiser found for the MemoryInfo registered at line %s" % reg.get("l")
+        return [v for v, _ in maybe] + ["uninitialised on some path"], None
+    # the value at the registration: the last dominating write, unless a non-dominating write may intervene
+    vals = []
+    if before:
+        last = max(before, key=lambda vx: vx[1]["i"])
+        vals.append(last[0])
+        vals.extend(v for v, x in maybe if x["i"] > last[1]["i"])
+    else:
+        vals.append(iv)
+        vals.extend(v for v, _ in maybe)
+    return vals, None
+
+
+def reaches_node(fn, a, b):
+    wa, wb = fn.cfg.block_of(a["i"]), fn.cfg.block_of(b["i"])
+    if wa is None or wb is None:
+        return True
+    if wa[0] == wb[0]:
+        return wa[1] < wb[1]
+    return wb[0] in fn.cfg.reachable(wa[0])
+
+
 def counter_delta_init(x):
     """`mi.counter = <int>` on a local MemoryInfo -> value"""
     if x.get("k") == "Assign" and x.get("op") == "=" and is_counter(L.unwrap(x["lhs"])) and L.unwrap(x["lhs"].get("b") or {}).get("k") == "Ref":
@@ -568,9 +736,10 @@ def container_rules(ck, fam, prefix="C20."):
         key = L.fkey(fn)
         merged = {}
         for label, it in cases:
+            all_obs = it.obligations + L.exit_obligations(it)        # exit obligations may add to it.unknown (tainted verdicts)
             for u in it.unknown:
                 ck.incomplete(prefix + "exit-state", "%s (%s): %s" % (key, fn.loc, u))
-            for (r, sub, ok, det, line) in it.obligations + L.exit_obligations(it):
+            for (r, sub, ok, det, line) in all_obs:
                 k = (r, sub, line)
                 if label and not ok:
                     det = "[%s] %s" % (label, det)
